@@ -1561,6 +1561,25 @@ class Shapes:
         A(("uf", m.Equals(self.app(self.fRR, R(1)), R(2))))
         A(("uf-array-result", m.Equals(m.Select(self.app(self.fAI, x), y), r)))
         A(("uf-array-result", m.Equals(m.Select(self.app(self.fAI, I(0)), I(1)), R(1))))
+        # functions of arity 2 and 3 whose RETURN sort is contributed by nothing else in the formula
+        F = FunctionType
+        S = m.Symbol
+        rets = [("Int", INT), ("Real", REAL), ("String", STRING), ("BV4", BVType(4)), ("U", self.U),
+                ("ArrIntReal", ArrayType(INT, REAL)), ("ArrUBV", ArrayType(self.V, BVType(4)))]
+        argsets = [([BVType(8), BVType(8)], [v, w]), ([BOOL, BOOL], [b, b2]), ([BVType(8), BOOL, BVType(8)], [v, b, w]),
+                   ([self.V, self.V], [vv, vv])]
+        for rn, rt in rets:
+            for k, (ats, avs) in enumerate(argsets):
+                if any(a == rt for a in ats):
+                    continue
+                f1 = S("c13_ret_%s_%d_f" % (rn, k), F(rt, ats))
+                g1 = S("c13_ret_%s_%d_g" % (rn, k), F(rt, ats))
+                A(("ret-sort-only", m.Equals(self.app(f1, *avs), self.app(g1, *avs))))
+                # … also when the application occurs only as an argument of another function
+                h1 = S("c13_ret_%s_%d_h" % (rn, k), F(BOOL, [rt, BOOL]))
+                A(("ret-sort-only", self.app(h1, self.app(f1, *avs), b)))
+                h2 = S("c13_ret_%s_%d_h2" % (rn, k), F(BOOL, [BOOL, rt, rt]))
+                A(("ret-sort-only", self.app(h2, b2, self.app(f1, *avs), self.app(g1, *reversed(avs)))))
         # bit-vectors
         A(("bv", m.BVULT(m.BVAdd(v, w), m.BV(3, 8))))
         A(("bv", m.Equals(m.BVToNatural(v), x)))
